@@ -162,6 +162,9 @@ func schemaForArray(typ reflect.Type, parents ...reflect.Type) (Schema, error) {
 }
 
 func schemaForMap(typ reflect.Type, parents ...reflect.Type) (Schema, error) {
+	if typ.Key().Kind() != reflect.String {
+		return Schema{}, fmt.Errorf("map key type %s not supported, keys must be strings", typ.Key())
+	}
 	s, err := schemaForType(typ.Elem(), parents...)
 	if err != nil {
 		return Schema{}, err
